@@ -89,4 +89,25 @@ def run(ctx):
     dec = who_calls(F, r"rocks_db::decode_from_rocksdb_bytes$")
     ctx.floor("decode_from_rocksdb_bytes|callers", len(dec), 2)
     ctx.assume("order preservation of the key encoding, listing equality and removal of a partition's last substate are value-level and not decided")
+    ctx.rule("T2 in InMemorySubstateDatabase::commit: a partition entry created by `entry(..).or_default()` is always re-examined by the "
+             "`is_empty()` test before the partition loop moves on — otherwise a commit that removes nothing from a partition that does not exist "
+             "leaves a phantom empty partition that list_partition_keys reports and the RocksDB stores (which derive partitions from keys) never have")
+    mc = [x for x in F.fns if re.search(r"memory_db::InMemorySubstateDatabase as .*CommittableSubstateDatabase>::commit$", x)]
+    ctx.ob("memory-commit|anchor", len(mc) == 1, f"InMemorySubstateDatabase::commit: {len(mc)}")
+    for x in mc[:1]:
+        b = ctx.body(x, F)
+        creates = call_blocks(b, r"Entry(<[^>]*>)?::or_default$|Entry(<[^>]*>)?::or_insert")
+        tests = [bb for bb, tru, fal, si in b.call_bool_guards(r"BTreeMap(<[^>]*>)?::is_empty$|::is_empty$")]
+        rets = b.returns() if hasattr(b, "returns") else []
+        ok = bool(creates) and bool(tests)
+        wit = None
+        for c in creates:
+            # from the creation, the next creation (next partition) or the function end must not be reachable without the emptiness test
+            region = b.reach(tuple(b.succs(c)), blocked_blocks=tests)
+            if c in region or (set(rets) & region):
+                ok = False
+                wit = c
+        ctx.ob("memory-commit|created-partition-always-tested-for-emptiness", ok,
+               "every partition entry created by or_default() reaches the is_empty() test before the next partition / the end" if ok else
+               "a partition entry created by or_default() can survive without the is_empty() test: a no-op delta leaves a phantom empty partition", b.loc(wit) if wit is not None else b.loc())
     ctx.assume("configuration B: radix-substate-store-impls with feature rocksdb")
